@@ -55,6 +55,16 @@
 
 using namespace tapkee;
 
+// the container of the index range handed to embed(): a vector, or (build with -DC01_RANGE_DEQUE) a std::deque filled
+// from both ends so that its elements lie in two separately allocated blocks: a random-access range that is NOT
+// contiguous in memory (pointer arithmetic on &*begin leaves the block)
+#ifdef C01_RANGE_DEQUE
+#include <deque>
+typedef std::deque<IndexType> Range;
+#else
+typedef std::vector<IndexType> Range;
+#endif
+
 static volatile long g_current_id = -1;
 
 static void on_alarm(int)
@@ -96,7 +106,7 @@ static const DimensionReductionMethod* method_by_name(const std::string& s)
 }
 
 // one call of tapkee::embed; the outcome as the payload of an R line
-static std::string call_embed(std::vector<IndexType>& idx, eigen_kernel_callback& kcb, eigen_distance_callback& dcb,
+static std::string call_embed(Range& idx, eigen_kernel_callback& kcb, eigen_distance_callback& dcb,
                               eigen_features_callback& fcb, const ParametersSet& ps,
                               const DimensionReductionMethod& m, const DenseMatrix& X, int N, int D,
                               std::string* extra = nullptr, long id = 0)
@@ -220,7 +230,7 @@ static std::string call_embed(std::vector<IndexType>& idx, eigen_kernel_callback
 
 struct small_stack_args
 {
-    std::vector<IndexType>* idx;
+    Range* idx;
     eigen_kernel_callback* kcb;
     eigen_distance_callback* dcb;
     eigen_features_callback* fcb;
@@ -272,9 +282,16 @@ int main()
         int N = atoi(kv["N"].c_str()), D = atoi(kv["D"].c_str());
         const int ix = kv.count("ix") ? atoi(kv["ix"].c_str()) : 0;
         const int ncols = ix == 2 ? 2 * N + 3 : N;
-        std::vector<IndexType> idx(N);
-        for (int i = 0; i < N; i++)
-            idx[i] = ix == 1 ? N - 1 - i : (ix == 2 ? 2 * i + 1 : i);
+        Range idx;
+        {
+            std::vector<IndexType> vals(N > 0 ? N : 0);
+            for (int i = 0; i < N; i++)
+                vals[i] = ix == 1 ? N - 1 - i : (ix == 2 ? 2 * i + 1 : i);
+            for (int i = N / 2; i < N; i++)
+                idx.push_back(vals[i]);
+            for (int i = N / 2 - 1; i >= 0; i--)
+                idx.insert(idx.begin(), vals[i]);       // a deque grows a new block at the front
+        }
         DenseMatrix X(D, ncols);
         for (int c = 0; c < ncols; c++)
             for (int j = 0; j < D; j++)
@@ -374,7 +391,7 @@ int main()
             if ((kernel_nb || plain_nb) && kk >= 3 && kk < N && kv.count("nbdump"))
             try
             {
-                typedef std::vector<IndexType>::iterator It;
+                typedef Range::iterator It;
                 const bool cc = kv.count("cc") ? (kv["cc"] == "1") : true;
                 const NeighborsMethod nmeth = nm == "brute" ? Brute : (nm == "vptree" ? VpTree : CoverTree);
                 tapkee_internal::Neighbors nbs;
@@ -441,7 +458,7 @@ int main()
 #pragma omp parallel num_threads(par)
                 {
                     const int t = omp_get_thread_num();
-                    std::vector<IndexType> my_idx(idx);
+                    Range my_idx(idx);
                     std::string r = call_embed(my_idx, kcb, dcb, fcb, ps, *m, X, N, D);
                     if (t < par)
                         rs[t] = r;
